@@ -27,6 +27,7 @@
   returned (all shapes incl. wide) on every run.
 -/
 import Gama.Lemmas.PinvSvdDecomp
+import Gama.Lemmas.PinvOfDecompose
 import Gama.Lemmas.Ls.SvdDecompWitness
 namespace Gama.Props.C15
 open Gama Gama.MatVec Gama.LS Gama.Ls Matrix
@@ -64,6 +65,23 @@ theorem C15_pinv_moore_penrose_svd (sq : K → K) (hsq : ∀ x : K, 0 ≤ x → 
       rowMajor N M (@pinvFrom K (Gama.MatVec.fieldScalar K sq) M N tol (flatM N d.U) (flatV d.W) (flatM N d.V))
     𝔸 * 𝕏 * 𝔸 = 𝔸 ∧ 𝕏 * 𝔸 * 𝕏 = 𝕏 ∧ (𝔸 * 𝕏)ᵀ = 𝔸 * 𝕏 ∧ (𝕏 * 𝔸)ᵀ = 𝕏 * 𝔸 :=
   pinv_moore_penrose_decompose sq hsq hsq0 M N tol A d hd h0
+
+/-- **`pinv(A)` end to end** (round 9, `pinv_of_decompose`): the model of the WHOLE function `pinv` of pinv.h —
+    `SVD svd(A); svd.decompose();` (`Svd.decompose`, statement by statement) followed by `W_inv` and the triple
+    loop (`pinvFrom`) — takes only `A`; whenever it returns `X` (the only way not to: the throws of `SVD::svd`,
+    `pinvOf_ok_iff`), `X` satisfies the four Moore–Penrose conditions, given that the singular values the run
+    itself computed are unambiguous w.r.t. the tolerance (`pinvOfW` = `SVD_W()` of that run).  No factor is an
+    input, no certificate is evaluated per run. -/
+theorem C15_pinv_of_decompose (sq : K → K) (hsq : ∀ x : K, 0 ≤ x → sq x * sq x = x)
+    (hsq0 : ∀ x : K, 0 ≤ x → 0 ≤ sq x) (M N : Nat) (tol : K) (A : DMat K) (X : Nat → K)
+    (hX : pinvOf sq M N tol A = .ok X)
+    (h0 : ∀ k : Fin N, @pinvWinv K (Gama.MatVec.fieldScalar K sq) N tol (pinvOfW sq M N A) k.val = 0 →
+        pinvOfW sq M N A k.val = 0) :
+    let 𝔸 : Matrix (Fin M) (Fin N) K := toMatrix M N A
+    let 𝕏 : Matrix (Fin N) (Fin M) K := rowMajor N M X
+    (𝔸 * 𝕏 * 𝔸 = 𝔸 ∧ 𝕏 * 𝔸 * 𝕏 = 𝕏 ∧ (𝔸 * 𝕏)ᵀ = 𝔸 * 𝕏 ∧ (𝕏 * 𝔸)ᵀ = 𝕏 * 𝔸)
+      ∧ ((∃ X', pinvOf sq M N tol A = .ok X') ↔ ∃ d, @Svd.decompose K (Gama.LS.fieldScalar sq) M N A = .ok d) :=
+  ⟨pinvOf_moore_penrose sq hsq hsq0 M N tol A X hX h0, pinvOf_ok_iff sq M N tol A⟩
 
 end
 
@@ -103,6 +121,29 @@ example : @Svd.decompose ℝ (Gama.LS.fieldScalar Real.sqrt) 3 2 (#[#[6, 8], #[3
     ∧ (∀ k : Fin 2, @pinvWinv ℝ (Gama.MatVec.fieldScalar ℝ Real.sqrt) 2 (1 / 1000) (flatV Gama.Ls.Ex.dCV.W) k.val = 0 →
         flatV Gama.Ls.Ex.dCV.W k.val = 0) := by
   refine ⟨Gama.Ls.Ex.pCV_decompose, ?_⟩
+  intro k hk
+  rw [pinvWinv_eq_abs] at hk
+  have hv : pinvVmax 2 (flatV Gama.Ls.Ex.dCV.W) = 15 := by
+    simp [pinvVmax, forUp, flatV, Gama.Ls.Ex.dCV]
+  rw [hv] at hk
+  fin_cases k
+  · simp [flatV, Gama.Ls.Ex.dCV]
+  · exfalso
+    have h15 : flatV Gama.Ls.Ex.dCV.W 1 = (15 : ℝ) := by simp [flatV, Gama.Ls.Ex.dCV]
+    simp only [h15] at hk
+    norm_num at hk
+
+/-- `C15_pinv_of_decompose` is not vacuous: on the rank-1 matrix `[[6,8],[3,4],[6,8]]` the whole `pinv` RETURNS
+    (the run of `decompose` above), its `W = (0, 15)`: the dropped value is an exact zero, 15 is kept -/
+example : (∃ X, pinvOf Real.sqrt 3 2 (1 / 1000) (#[#[6, 8], #[3, 4], #[6, 8]] : DMat ℝ) = .ok X)
+    ∧ (∀ k : Fin 2, @pinvWinv ℝ (Gama.MatVec.fieldScalar ℝ Real.sqrt) 2 (1 / 1000)
+          (pinvOfW Real.sqrt 3 2 (#[#[6, 8], #[3, 4], #[6, 8]] : DMat ℝ)) k.val = 0 →
+        pinvOfW Real.sqrt 3 2 (#[#[6, 8], #[3, 4], #[6, 8]] : DMat ℝ) k.val = 0) := by
+  have hd := Gama.Ls.Ex.pCV_decompose
+  refine ⟨(pinvOf_ok_iff Real.sqrt 3 2 (1 / 1000) _).2 ⟨_, hd⟩, ?_⟩
+  have hW : pinvOfW Real.sqrt 3 2 (#[#[6, 8], #[3, 4], #[6, 8]] : DMat ℝ) = flatV Gama.Ls.Ex.dCV.W := by
+    unfold pinvOfW; rw [hd]
+  rw [hW]
   intro k hk
   rw [pinvWinv_eq_abs] at hk
   have hv : pinvVmax 2 (flatV Gama.Ls.Ex.dCV.W) = 15 := by
